@@ -54,7 +54,7 @@ theorem refine_callsC (P : Program) (nm : List String → String) (O : Oracle) (
         at hargs
       have hsplitL : (staticCallsT st P.insOf node path self (c :: cs) sib []).2
           = r.2 ++ (staticCallsT st P.insOf node path self cs (sib ++ [(c.id, r.1)]) []).2 := by
-        simp only [staticCallsT, hm, Bool.false_eq_true, if_false, hr]
+        simp only [staticCallsT, hm, Bool.false_eq_true, if_false, hr, hc.2.1]
         rw [staticCallsT_acc]
         simp
       rw [hsplitL, flattenTList_append] at hstore
@@ -63,7 +63,7 @@ theorem refine_callsC (P : Program) (nm : List String → String) (O : Oracle) (
         (by rw [hr]; exact fun n hn => hstore n (by simp [hn])) (by rw [hr]; exact htree.1)
       rw [hr] at hgood
       obtain ⟨g1, g2, g3⟩ := hgood
-      simp only [evalCalls, staticCallsT, hm, Bool.false_eq_true, if_false, hr]
+      simp only [evalCalls, staticCallsT, hm, Bool.false_eq_true, if_false, hr, hc.2.1]
       rw [evalCall_plain st F P.insOf run path forks env c hc.1 hc.2.1]
       simp only
       have hrel' := envRel_stepC st F ρ (Agree forks) env self sib hrel c.id ⟨c.callee, 0, 0⟩ _ _ g1 g2
@@ -88,7 +88,7 @@ theorem refine_callsC (P : Program) (nm : List String → String) (O : Oracle) (
       have hsplitL : (staticCallsT st P.insOf node path self (c :: cs) sib []).2
           = [STree.sub c.id (ci.getD (false, [])).1 (ci.getD (false, [])).2
               (ci.isSome && !(ci.getD (false, [])).2.isEmpty &&
-                splitsStaticT st self sib (P.insOf c.callee) c (ci.getD (false, []))) r.2] ++
+                splitsStaticT st self sib (P.insOf c.callee) c (ci.getD (false, [])) && c.disabled.isNone) r.2] ++
             (staticCallsT st P.insOf node path self cs
               (sib ++ [(c.id, unrolledOutputsT c (ci.getD (false, [])) r.1.exp)]) []).2 := by
         simp only [staticCallsT, hm, if_true, hr, hci]
@@ -98,7 +98,7 @@ theorem refine_callsC (P : Program) (nm : List String → String) (O : Oracle) (
       rw [hsplitL, treeOkList_append, Bool.and_eq_true] at htree
       obtain ⟨htree1, htree2⟩ := htree
       simp only [treeOkList, treeOk, Bool.and_true, Bool.and_eq_true, Bool.not_eq_true'] at htree1
-      obtain ⟨⟨⟨⟨hsome, hnonempty⟩, hss⟩, habove⟩, htreeR⟩ := htree1
+      obtain ⟨⟨⟨⟨⟨hsome, hnonempty⟩, hss⟩, _⟩, habove⟩, htreeR⟩ := htree1
       obtain ⟨hix1, hfacts⟩ := mapped_factsT st hst F hF ρ P (Agree forks) env self sib hrel f0 hf0 c hmapped'
         (ci.getD (false, [])) hss
       generalize hixs : (ci.getD (false, [])).2 = ixs at *
@@ -169,7 +169,7 @@ theorem refine_callsC (P : Program) (nm : List String → String) (O : Oracle) (
             (run c.callee (path ++ [c.id]) (forks ++ [(c.id, ix)])
               (mkArgs st F (argVals st env (P.insOf c.callee) c) (some ix))).2)
           = instsTList st F ρ forks f [STree.sub c.id false ixs
-              (ci.isSome && !ixs.isEmpty && splitsStaticT st self sib (P.insOf c.callee) c (false, ixs)) r.2] := by
+              (ci.isSome && !ixs.isEmpty && splitsStaticT st self sib (P.insOf c.callee) c (false, ixs) && c.disabled.isNone) r.2] := by
         intro f hf
         simp only [instsTList, instsT, List.append_nil]
         apply flatMap_congr_mem
@@ -180,7 +180,7 @@ theorem refine_callsC (P : Program) (nm : List String → String) (O : Oracle) (
             (run c.callee (path ++ [c.id]) (forks ++ [(c.id, ix)])
               (mkArgs st F (argVals st env (P.insOf c.callee) c) (some ix))).2))
         (sacc ++ [STree.sub c.id false ixs
-              (ci.isSome && !ixs.isEmpty && splitsStaticT st self sib (P.insOf c.callee) c (false, ixs)) r.2])
+              (ci.isSome && !ixs.isEmpty && splitsStaticT st self sib (P.insOf c.callee) c (false, ixs) && c.disabled.isNone) r.2])
         hrel' hsT (by rw [← hty]; simpa [typesOf] using hcs)
         (fun f hf => by rw [hacc f hf, hinst f hf, instsTList_append]) ⟨f0, hf0⟩
         (fun n hn => hstore n (by rw [hixsP, hout]; simp [hn]))
